@@ -63,6 +63,10 @@ func c15Live(c *common, rng *hxlib.Rng, out *hxlib.Out) int {
 			for k := 0; k < n && bad == ""; k++ {
 				tag := 10 + rng.Intn(80)
 				cb := mkcb(tag)
+				if rng.Intn(3) == 0 {
+					// a BOUND METHOD VALUE as replacement: its code (the -fm wrapper) finds the receiver through the context register
+					cb = (&c15LiveObj{tag: tag}).Repl
+				}
 				m := b.Func(t.f)
 				if withOrigin {
 					m.Origin(&ph).Apply(cb)
@@ -71,16 +75,20 @@ func c15Live(c *common, rng *hxlib.Rng, out *hxlib.Out) int {
 				}
 				entry := reflect.ValueOf(t.f).Pointer()
 				code := rawView(entry, 13)
-				if !(code[0] == 0x90 && code[1] == 0x48 && code[2] == 0xBA && code[11] == 0xFF && code[12] == 0x22) {
-					bad = fmt.Sprintf("apply #%d: the entry is not NOP; MOVABS RDX,imm; JMP [RDX]: % x", k, code)
-					break
+				// when the entry has goom's usual form the context register it loads must be the requested function value;
+				// any other form is judged by what the call does (below)
+				if code[0] == 0x90 && code[1] == 0x48 && code[2] == 0xBA && code[11] == 0xFF && code[12] == 0x22 {
+					if imm, want := uintptr(binary.LittleEndian.Uint64(code[3:11])), funcvalPtr(cb); imm != want {
+						bad = fmt.Sprintf("apply #%d: the installed MOVABS RDX loads %#x, the requested function value is %#x", k, imm, want)
+						break
+					}
+				} else {
+					rec["other_entry_form"] = fmt.Sprintf("% x", code)
 				}
-				if imm, want := uintptr(binary.LittleEndian.Uint64(code[3:11])), funcvalPtr(cb); imm != want {
-					bad = fmt.Sprintf("apply #%d: the installed MOVABS RDX loads %#x, the requested function value is %#x", k, imm, want)
-					break
-				}
-				if got := t.f(5); got != tag*1000+5 {
-					bad = fmt.Sprintf("apply #%d: the call answers %d, the requested replacement answers %d", k, got, tag*1000+5)
+				out.Put(map[string]interface{}{"kind": "live-iface-about-to-call", "mode": "entry:" + t.name, "i": r, "reserve_used": false})
+				out.Flush()
+				if got := outcome(func() int { return t.f(5) }); got != interface{}(tag*1000+5) {
+					bad = fmt.Sprintf("apply #%d: the call answers %v, the requested replacement answers %d", k, got, tag*1000+5)
 				}
 			}
 		}()
@@ -238,3 +246,8 @@ func c15Live(c *common, rng *hxlib.Rng, out *hxlib.Out) int {
 
 //go:noinline
 func c15LiveLeaf(a int) int { return a + 4242 }
+
+type c15LiveObj struct{ tag int }
+
+//go:noinline
+func (o *c15LiveObj) Repl(a int) int { return o.tag*1000 + a }
